@@ -9,17 +9,26 @@ type queryCache map[string][]Result
 type ChunkCache struct {
 	mutex sync.Mutex
 	cache map[*Chunk]*queryCache
+	epoch int
 }
 
 // NewChunkCache returns a new ChunkCache
 func NewChunkCache() *ChunkCache {
-	return &ChunkCache{sync.Mutex{}, make(map[*Chunk]*queryCache)}
+	return &ChunkCache{sync.Mutex{}, make(map[*Chunk]*queryCache), 0}
 }
 
 func (cc *ChunkCache) Clear() {
 	cc.mutex.Lock()
 	cc.cache = make(map[*Chunk]*queryCache)
+	cc.epoch++
 	cc.mutex.Unlock()
+}
+
+// Epoch returns the number of times the cache has been cleared
+func (cc *ChunkCache) Epoch() int {
+	cc.mutex.Lock()
+	defer cc.mutex.Unlock()
+	return cc.epoch
 }
 
 func (cc *ChunkCache) retire(chunk ...*Chunk) {
@@ -32,12 +41,26 @@ func (cc *ChunkCache) retire(chunk ...*Chunk) {
 
 // Add adds the list to the cache
 func (cc *ChunkCache) Add(chunk *Chunk, key string, list []Result) {
+	cc.add(chunk, key, list, -1)
+}
+
+// AddIfCurrent adds the list to the cache unless the cache has been cleared
+// since the given epoch, i.e. the list was built for an outdated search
+func (cc *ChunkCache) AddIfCurrent(chunk *Chunk, key string, list []Result, epoch int) {
+	cc.add(chunk, key, list, epoch)
+}
+
+func (cc *ChunkCache) add(chunk *Chunk, key string, list []Result, epoch int) {
 	if len(key) == 0 || !chunk.IsFull() || len(list) > queryCacheMax {
 		return
 	}
 
 	cc.mutex.Lock()
 	defer cc.mutex.Unlock()
+
+	if epoch >= 0 && epoch != cc.epoch {
+		return
+	}
 
 	qc, ok := cc.cache[chunk]
 	if !ok {
